@@ -9,7 +9,7 @@ is NOT decided.
 """
 import ast
 
-from ..model import AnalysisError, src, callee_name, dotted, walk_local, calls_in, FUNC
+from ..model import AnalysisError, src, callee_name, dotted, walk_local, calls_in, FUNC, pos
 from ..flow import Sem
 from ..callgraph import CallGraph
 from .. import fresh
@@ -121,11 +121,11 @@ def saved_names(f, repo):
             if isinstance(n, ast.Assign) and reads_store(n.value):
                 for t in n.targets:
                     if isinstance(t, ast.Name):
-                        saved[t.id] = n.lineno
+                        saved[t.id] = pos(n)
         # defaults of g bound to saved names
         a = g.node.args
-        pos = a.posonlyargs + a.args
-        for p, d in zip(pos[len(pos) - len(a.defaults):], a.defaults):
+        ppos = a.posonlyargs + a.args
+        for p, d in zip(ppos[len(ppos) - len(a.defaults):], a.defaults):
             if isinstance(d, ast.Name) and d.id in saved:
                 saved[p.arg] = saved[d.id]
         # loop targets iterating containers of saved originals
@@ -196,7 +196,7 @@ class RebindSem(Sem):
             if restore:
                 self.restores.append((k, nm, st.lineno))
                 return state - {k}
-            self.first_temp.setdefault(k, st.lineno)
+            self.first_temp.setdefault(k, pos(st))
             return state | {k}
         if not isinstance(st, FUNC):
             lk = self._uses_leaky(st)
@@ -229,6 +229,9 @@ def check(ctx):
     cg = CallGraph(repo)
     ctx.rule("C07-R1", "PAIR(rebinding): every store klong[k]=v in the gradient code that is not a restore of a saved original opens k; k is closed on every exit (normal and exceptional) of that function, or of the function that hands the closure out; the original is saved before the first temporary store")
     ctx.rule("C07-R2", "FRESH-WRITE: every in-place write in the numeric differentiation code targets an array allocated in the same activation")
+    ctx.rule("C07-R4", "saving reads may look at the scope stack, but every (re)binding and every restore goes through klong[k] = v: a restore that stores into klong._context leaves expressions compiled during the probe in the cache")
+    from ..common import check_writes_through_interpreter
+    check_writes_through_interpreter(ctx, repo, "C07-R4", ("autograd",), "the gradient code")
     ctx.rule("C07-R3", "in-place torch switches (requires_grad_ and other `*_` methods) are applied only to tensors created in the same activation")
     for t in fresh.trusted_facts():
         ctx.trust(t)
@@ -349,6 +352,7 @@ MUTATION_SCOPE = ['autograd:numeric_grad',
                   'dyads:eval_dyad_grad.func']
 
 SEEDS = [
+    Seed("restore-bypasses-setitem", "fault", "autograd", "                klong[sym] = orig", "                klong._context[sym] = orig", rule="C07-R4"),
     Seed("restore-out-of-finally-grad", "fault", "dyads",
          "            try:\n                return call_fn(v)\n            finally:\n                klong[a] = orig",
          "            r = call_fn(v)\n            klong[a] = orig\n            return r", rule="C07-R1"),
